@@ -15,6 +15,13 @@ package emit
 //                                           cptr/n|z          pointer (nil / to the zero value) to the type of the struct,
 //                                                             map or slice the path addresses (the replacement form of Set)
 //                                           root/n|z          pointer (nil / to a zero value) to the root type
+//                                           at/<k>/<n|z|e|f>  pointer to a value of the type found after k segments of the path
+//                                                             (k = 0: the root type; k < len(path): a container the path goes THROUGH;
+//                                                             pointers on the way are followed): n nil pointer, z to the zero value
+//                                                             (nil map / nil slice / zero struct), e to an empty value (allocated
+//                                                             empty maps and slices, pointers set, at every depth), f to a populated
+//                                                             one (maps and slices with elements under the keys / indices the
+//                                                             enumerated paths use, pointers set, scalars non-zero)
 //     deq;<right form>;<opts>             right operand: the same value text in that form (same = the left argument itself)
 //     copyto;<dst form>                   dst form: pz (pointer to a zero value) self (the source argument itself)
 //                                         pv (pointer to a second copy of the value) v np npp nilpp nil foreign
@@ -121,6 +128,36 @@ func hostileSource(t reflect.Type, path []string, text string) any {
 		}
 		return reflect.New(ft).Interface()
 	}
+	if f[0] == "at" {
+		k, err := strconv.Atoi(f[1])
+		if err != nil || len(f) < 3 {
+			panic("bad source " + text)
+		}
+		if k > len(path) {
+			k = len(path)
+		}
+		ft := typeAt(t, path[:k])
+		for ft.Kind() == reflect.Ptr {
+			ft = ft.Elem()
+		}
+		container := ft.Kind() == reflect.Struct || ft.Kind() == reflect.Map || (ft.Kind() == reflect.Slice && ft.Elem().Kind() != reflect.Uint8)
+		pv := reflect.New(ft)
+		switch f[2] {
+		case "n":
+			// as for cptr: a typed nil pointer to a scalar, string or []byte is the source class <gokind>/n/
+			if container {
+				return reflect.Zero(reflect.PtrTo(ft)).Interface()
+			}
+		case "z":
+		case "e":
+			pv.Elem().Set(fillValue(ft, false, 6))
+		case "f":
+			pv.Elem().Set(fillValue(ft, true, 6))
+		default:
+			panic("bad source " + text)
+		}
+		return pv.Interface()
+	}
 	if len(f) >= 2 && f[1] == "n" {
 		kt, ok := srcKinds[f[0]]
 		if !ok {
@@ -129,6 +166,66 @@ func hostileSource(t reflect.Type, path []string, text string) any {
 		return reflect.Zero(reflect.PtrTo(kt)).Interface()
 	}
 	return Source(text)
+}
+
+// fillValue builds a value of type t with every pointer set and every map and slice allocated, down to the given
+// depth: empty collections and zero scalars (populated = false), or collections with elements - one map entry under
+// the first key of Gen/EnumVal.v's key_variants (1, "a", 1.5, true), two slice elements and spare capacity - and
+// non-zero scalars (populated = true).
+func fillValue(t reflect.Type, populated bool, depth int) reflect.Value {
+	v := reflect.New(t).Elem()
+	if depth <= 0 {
+		return v
+	}
+	switch t.Kind() {
+	case reflect.Bool:
+		v.SetBool(populated)
+	case reflect.Int, reflect.Int8, reflect.Int16, reflect.Int32, reflect.Int64:
+		if populated {
+			v.SetInt(1)
+		}
+	case reflect.Uint, reflect.Uint8, reflect.Uint16, reflect.Uint32, reflect.Uint64:
+		if populated {
+			v.SetUint(1)
+		}
+	case reflect.Float32, reflect.Float64:
+		if populated {
+			v.SetFloat(1.5)
+		}
+	case reflect.String:
+		if populated && roMode {
+			v.SetString(roString([]byte("a"))) // as the strings of the built values (rodata.go)
+		} else if populated {
+			v.SetString(strings.Clone("a"))
+		}
+	case reflect.Ptr:
+		pv := reflect.New(t.Elem())
+		pv.Elem().Set(fillValue(t.Elem(), populated, depth-1))
+		v.Set(pv)
+	case reflect.Struct:
+		for i := 0; i < t.NumField(); i++ {
+			if v.Field(i).CanSet() {
+				v.Field(i).Set(fillValue(t.Field(i).Type, populated, depth-1))
+			}
+		}
+	case reflect.Slice:
+		if !populated {
+			v.Set(reflect.MakeSlice(t, 0, 2))
+			break
+		}
+		s := reflect.MakeSlice(t, 2, 3)
+		for i := 0; i < 2; i++ {
+			s.Index(i).Set(fillValue(t.Elem(), populated, depth-1))
+		}
+		v.Set(s)
+	case reflect.Map:
+		m := reflect.MakeMap(t)
+		if populated {
+			m.SetMapIndex(fillValue(t.Key(), populated, depth-1), fillValue(t.Elem(), populated, depth-1))
+		}
+		v.Set(m)
+	}
+	return v
 }
 
 func unhexDash(s string) []byte {
